@@ -288,6 +288,35 @@ def _long_tall_matrix(draw, tier):
     return np.ascontiguousarray(A / 16.0 * 10.0 ** e), e
 
 
+@st.composite
+def _moderate_tall_matrix(draw):
+    """12..32 columns with a graded spectrum (cond up to 1e3): the sizes where floating-point CG needs
+    several times n steps.  Unitary factors are two PRNG Householder reflectors each (the convergence
+    history depends on the spectrum and on the components of the start, not on the factors' fine structure)."""
+    n = draw(st.integers(12, 32))
+    m = n + draw(st.sampled_from([0, 1, 5, n]))
+    rng = np.random.RandomState(draw(st.integers(0, 2 ** 31 - 1)))
+    kappa = draw(st.sampled_from(KAPPAS_MID + KAPPAS_HARD * 2))
+    # n DISTINCT graded values (the few-valued spectra of _spectrum let CG finish in a handful of steps)
+    expo = np.linspace(0.0, 1.0, n)
+    if draw(st.booleans()):
+        expo = np.sort(np.concatenate([[0.0, 1.0], rng.uniform(0.0, 1.0, n - 2)]))
+    s = kappa ** (-expo)
+
+    def factor(k):
+        Qm = ref.qeye(k)
+        for _ in range(2):
+            u = np.round(rng.uniform(-1.0, 1.0, (k, 4)) * 32.0) / 32.0
+            if not u.any():
+                u[0, 0] = 1.0
+            Qm = ref.qmm(gen.householder(u), Qm)
+        return Qm
+
+    A = ref.qmm(ref.scale_cols(factor(m)[:, :n], s), ref.conjT(factor(n)))
+    e = draw(st.sampled_from([0, 0, 0, -3, 2]))
+    return np.ascontiguousarray(A * 10.0 ** e), e
+
+
 MAXIT = {"quick": [1, 3, 10, 30, 100, 300, 300, 300], "thorough": [1, 2, 3, 5, 10, 30, 100, 300, 300, 300, 1000]}
 
 
@@ -338,12 +367,13 @@ def hybrid_cases(draw, tier, long=False):
 
 
 @st.composite
-def cgne_cases(draw, tier, long=False):
-    A, e = draw(_long_tall_matrix(tier) if long else _tall_matrix(weights=(3, 3, 4)))
+def cgne_cases(draw, tier, long=False, moderate=False):
+    A, e = draw(_moderate_tall_matrix() if moderate else _long_tall_matrix(tier) if long else _tall_matrix(weights=(3, 3, 4)))
     m, n = A.shape[:2]
-    pr = draw(st.sampled_from([0, 0, 0, 0, 1, 2, n, n + 1, -1]))
-    max_iter = draw(st.sampled_from([None, None, None, 1, 2, 3, 10, 50]))
-    return {"A": A, "scale_exp": e, "prec_rank": pr, "tol": draw(_tol_strategy()), "max_iter": max_iter,
+    pr = draw(st.sampled_from([0] * 8 + [2, n] if moderate else [0, 0, 0, 0, 1, 2, n, n + 1, -1]))
+    max_iter = draw(st.sampled_from([None, None, None, 200, 80, 1000] if moderate else [None, None, None, 1, 2, 3, 10, 50]))
+    tol = draw(st.sampled_from([1e-8, 2.5e-8, 1e-7, 1e-6, 1e-5, 1e-3])) if moderate else draw(_tol_strategy())
+    return {"A": A, "scale_exp": e, "prec_rank": pr, "tol": tol, "max_iter": max_iter,
             "seed": draw(gen.seeds()), "warmup": draw(st.sampled_from([False, False, True]))}
 
 
@@ -731,6 +761,14 @@ def check_cgne(case):
         if case["max_iter"] is None and tol >= 50.0 * U_ * pb.kappa ** 2:
             out.true(f"{site}:converges within the default budget (tol >= 50 u kappa^2)", converged,
                      f"not converged after {iters} iterations, last = {rn[-1] if rn else None}, kappa = {pb.kappa:.3g}")
+        if not converged and iters < budget:
+            # the only exit before the budget without meeting tol is the stationarity guard ||D A||_F <= 1e-20,
+            # i.e. the accuracy floor: a run that is abandoned anywhere else did not use "its budget"
+            out.label("left_before_budget_unconverged")
+            out.le(f"{site}:an unconverged run uses its whole budget unless it sits at the accuracy floor",
+                   ref.fro(E) / np.sqrt(n), 50.0 * U_ * pb.kappa ** 2 + abs_slack,
+                   f"stopped after {iters} of {budget} iterations with last residual {rn[-1] if rn else None}, "
+                   f"tol={tol:.1e}, kappa={pb.kappa:.3g}")
         if iters > 2 * n + 2:
             out.label("iterations>2n+2")
     else:
@@ -1020,6 +1058,8 @@ PROPERTY = Property(
                budget={"quick": 16, "thorough": 160}, shrink=False),
         Clause("cgne_long_dimension", check_cgne, strategy=lambda tier: cgne_cases(tier, long=True),
                budget={"quick": 16, "thorough": 160}, shrink=False),
+        Clause("cgne_moderate_size", check_cgne, strategy=lambda tier: cgne_cases(tier, moderate=True),
+               budget={"quick": 32, "thorough": 400}, shrink=False),
         Clause("trajectory_qr", check_trajectory, strategy=trajectory_cases, budget={"quick": 320, "thorough": 6000}),
         Clause("guards", check_guard, enumerate=enum_guards, budget={"quick": 0, "thorough": 0}),
     ],
